@@ -271,6 +271,10 @@ def main():
         ok, out = regenerate()
         if not ok:
             broken.append({"kind": "translator", "message": out[-600:]})
+        m_unp = re.search(r"\((\d+) unparsed\)", out)
+        if ok and m_unp and int(m_unp.group(1)) > 0 and "Gen.PacketsGen" in " ".join(spec.get("imports", []) + ["Gen.PacketsGen" if spec["run_files"][0] == "Run/CaseConn.v" else ""]):
+            # a packet impl the translator no longer understands: its layout is not re-checked from the source
+            broken.append({"kind": "translator-tie", "message": "packet impls the translator cannot parse any more: " + out[-600:]})
         # skeleton tie of the hand-transcribed functions
         if spec.get("skeleton"):
             rc_sk, out_sk = sh([sys.executable, os.path.join(ROOT, "tools", "skeleton.py"), "check", ",".join(spec["skeleton"])])
@@ -344,6 +348,9 @@ def main():
     if res["corr"]:
         broken.append({"kind": "correspondence", "message": "%d case(s) where model and implementation differ" % len(res["corr"]),
                        "cases": [cases[i][1][:400] for i in res["corr"][:5]]})
+    if spec.get("max_skipped") is not None and len(res["skipped"]) > spec["max_skipped"]:
+        broken.append({"kind": "correspondence-run", "message": "%d case(s) fell outside the model (at most %d expected)" % (len(res["skipped"]), spec["max_skipped"]),
+                       "cases": [cases[i][1][:400] for i in res["skipped"][:3]]})
     if res["unevaluated"]:
         broken.append({"kind": "correspondence-run", "message": "%d case(s) not evaluated" % res["unevaluated"]})
 
